@@ -20,6 +20,7 @@ for sd in seeds.SEEDS:
         ctx = Ctx(prog)
         for r in rules:
             importlib.import_module('rules.' + r).run(ctx)
+        import stages as _st; _st.mark_known(ctx)
         v = [i for i in ctx.instances if i.verdict == 'violation']
         hit = [i for i in v if set(sd['props']) & i.props]
         print(sd['id'], 'DETECTED' if hit else 'MISSED', '(%d violations, %d on target props)' % (len(v), len(hit)))
